@@ -69,6 +69,7 @@ class Builder(object):
         self.log = log
         self.dead = dead        # list receiving dead letters of error routers
         self.mux = mux
+        self.late = []          # dead-letter subscriptions to perform after the data stream is subscribed
 
     def pipe(self, term, path=''):
         ops = []
@@ -150,8 +151,13 @@ class Builder(object):
         if n == 'route':
             errors, route = rs.error.create_error_router()
             dead = self.dead if self.dead is not None else []
-            errors.subscribe(on_next=lambda e: dead.append(type(e).__name__),
-                             on_completed=lambda: dead.append('<completed>'))
+            def sub():
+                errors.subscribe(on_next=lambda e: dead.append(type(e).__name__),
+                                 on_completed=lambda: dead.append('<completed>'))
+            if st[1:] == ['late']:
+                self.late.append(sub)
+            else:
+                sub()
             return [route()]
         if n in ('group_by', 'roll', 'split', 'time_split'):
             inner = []
@@ -220,6 +226,8 @@ def run_mux(term, items, bounds=False):
 
     src.pipe(rs.state.with_memory_store(pipeline=ops)).subscribe(
         on_next=on_next, on_error=on_error, on_completed=on_completed)
+    for sub in b.late:
+        sub()
     chunks = [list(cur)]
     del cur[:]
     raised = None
